@@ -273,7 +273,7 @@ fn check_angle_impl(deg: f64, r: &mut Report) {
         }
         // trig
         let (s, c) = a.sin_cos();
-        if s != a.sin() || c != a.cos() || ((s as f64).powi(2) + (c as f64).powi(2) - 1.0).abs() > 1e-5 || ((s as f64) - (a.to_rads() as f64).sin()).abs() > 1e-5 {
+        if s != a.sin() || c != a.cos() || ((s as f64).powi(2) + (c as f64).powi(2) - 1.0).abs() > 1e-6 || ((s as f64) - (a.to_rads() as f64).sin()).abs() > 5e-7 || ((c as f64) - (a.to_rads() as f64).cos()).abs() > 5e-7 {
             r.violation(key("sin-cos"), format!("degs({d}): sin_cos=({s},{c}) sin={} cos={}", a.sin(), a.cos()), case());
         }
         // arithmetic, clamp, min, max on the magnitude
@@ -377,7 +377,7 @@ fn check_polar_first(rr: f32, azd: f32, altd: f32, r: &mut Report) {
     if ((c.x() as f64 - rr as f64 * a64.cos()).abs()).max((c.y() as f64 - rr as f64 * a64.sin()).abs()) > 2e-6 * rr as f64 { r.violation(key("polar-to-cart"), format!("polar({rr},{azd}deg).to_cart() = {c:?}, f64: ({}, {})", rr as f64 * a64.cos(), rr as f64 * a64.sin()), case()); }
     let q = c.to_polar();
     if ((q.r() - rr).abs() as f64) > 1e-4 * rr as f64 || circ_diff(q.az().to_rads() as f64, p.az().to_rads() as f64) > 1e-4 { r.violation(key("polar-inverse"), format!("polar({rr},{azd}deg) -> {c:?} -> {q:?}"), case()); }
-    if altd.abs() <= 89.0 {
+    if altd.abs() < 90.0 {
         let s = spherical(rr, degs(azd), degs(altd));
         let (sc, l64) = (s.to_cart(), s.alt().to_rads() as f64);
         let want = [rr as f64 * a64.cos() * l64.cos(), rr as f64 * l64.sin(), rr as f64 * a64.sin() * l64.cos()];
@@ -417,6 +417,11 @@ fn run_angle(cfg: &Cfg) -> ! {
     rep.merge(par_range(cfg, 49 * 25 * 4, |i, r| {
         let (az, alt, m) = ((i % 49) as f32 * 7.5 - 180.0, (i / 49 % 25) as f32 * 7.5 - 90.0, mags[(i / 49 / 25) as usize]);
         check_polar_first(m, az, alt, r);
+    }));
+    // altitudes close to the poles (cos(alt) down to 1.7e-4)
+    rep.merge(par_range(cfg, 49 * 12, |i, r| {
+        let alt = [80.0f32, 85.0, 88.0, 89.0, 89.9, 89.99, -80.0, -85.0, -88.0, -89.0, -89.9, -89.99][(i / 49) as usize];
+        check_polar_first(1.0, (i % 49) as f32 * 7.5 - 180.0, alt, r);
     }));
     // the same over many revolutions: azimuth k*7.5 degrees + n turns
     rep.merge(par_range(cfg, 49 * 5 * 8, |i, r| {
